@@ -126,20 +126,37 @@ fn run(input: RunInput) -> ScenFuture {
             // key, under way at the same time: whatever the listener keeps between the two messages
             // of one handshake belongs to that handshake
             let padded = role == 0 && strat == "replay-x" && r.gen_bool(0.7);
+            let mut padding: Option<CertificateDer<'static>> = None;
             let chain = if padded {
                 let mut pad_key = [0u8; 32];
                 r.fill(&mut pad_key);
-                let names: Vec<String> = (0..r.gen_range(1..7)).map(|i| {
-                    let len = r.gen_range(10..240usize);
+                // (total size of the padding mostly in the range where the first datagram of the
+                // flight ends between the two messages; the second handshake carries the same
+                // padding behind its own certificate, so its messages are split likewise)
+                let target = if r.gen_bool(0.75) { r.gen_range(450..1_050usize) } else { r.gen_range(200..1_700) };
+                let mut names: Vec<String> = Vec::new();
+                let mut left = target.saturating_sub(190);
+                let mut i = 0;
+                while left > 8 {
+                    let len = left.min(240);
                     let mut s = format!("p{i}");
                     while s.len() < len {
                         s.push('.');
                         s.push_str(&"x".repeat((len - s.len()).min(50)));
                     }
-                    s
-                }).collect();
+                    s.truncate(len);
+                    let s = s.trim_end_matches('.').to_string();
+                    left = left.saturating_sub(s.len() + 2);
+                    names.push(s);
+                    i += 1;
+                }
+                if names.is_empty() {
+                    names.push("p".into());
+                }
+                let pad = gen_cert_shape(&pad_key, &names, None);
+                padding = Some(pad.clone());
                 let mut c = chain;
-                c.push(gen_cert_shape(&pad_key, &names, None));
+                c.push(pad);
                 c
             } else {
                 chain
@@ -158,7 +175,7 @@ fn run(input: RunInput) -> ScenFuture {
             if role == 0 {
                 let dialed = if padded {
                     let second = adv_endpoint(&w, AdvSpec {
-                        idx: 9, port: 7300 + k as u16, chain: vec![cert_own.clone()], sign_key: k_adv, present_client_cert: true,
+                        idx: 9, port: 7300 + k as u16, chain: vec![cert_own.clone(), padding.clone().unwrap()], sign_key: k_adv, present_client_cert: true,
                         idle_ms: 8_000, keep_alive_ms: Some(2_000), max_bidi: 100,
                     });
                     let off = r.gen_range(0..6_000u64);
